@@ -7,6 +7,7 @@ from sa.astx import assigned_targets, call_attr, call_name, dotted, src, stateme
 from sa.domains import CTL, HEXDIG, TCHAR, fmt_set
 from sa.selftest import Mutant, Silent
 from sa.source import AnalysisError, class_assigns, methods
+from sa.props._lib_e_machine import ClassV, Machine, Opaque, PyRaise, exc_name
 from sa.props._lib_e import (Raised, Unknown, Unsupported, assigns_self, call_in, calls_named, catches, check_hex_validators, handlers_of, http_interp, is_const,
                              is_falsy_return, make_env, no_exc, only_nodes_until_exit, ordered, resolve_local, risky_calls, self_attr, walk)
 
@@ -18,22 +19,25 @@ QD = Q + "_ChunkedTransferDecoder."
 PREFIX = "_dataReceived_"
 BAD = "_MalformedChunkedDataError"
 
-TECHNIQUE = "state-table closure + small-step partial evaluation of each state handler over boundary buffers"
+TECHNIQUE = 'AST interpretation of _ChunkedTransferDecoder on generated streams and splits vs a reference encoder'
 EXPLANATION = (
-    "Decides (a) closure of the state table: every string assigned to state has a _dataReceived_<STATE> handler and vice versa, dispatch uses "
-    "that prefix, noMoreData compares with an existing state; (b) by evaluating the source of _hexint/_ishexdigits/toChunk/fromChunk and by "
-    "stepping each state handler's CFG with concrete buffers (every byte value in an extension, every malformed size form, the size-line and "
-    "trailer limits at L-1/L/L+1, CR/LF split across deliveries) that the decision taken - wait / proceed to the right state / raise "
-    "_MalformedChunkedDataError - and the bytes passed to dataCallback / finishCallback are the RFC 9112 7.1 ones; (c) structurally: the size is "
-    "decoded only by _hexint inside a ValueError->_MalformedChunkedDataError conversion, all explicit raises of the four parsing states are "
-    "_MalformedChunkedDataError and neither their message construction nor the handler bodies contain an operation that can raise something else on untrusted bytes "
-    "(strict decode/int/index; the stepped runs include size fields with bytes >= 0x80 in every position and record any exception escaping), state/buffer are updated before each call-out and nothing but a return follows it, the extra bytes are taken "
-    "before the buffer is cleared, finishCallback has a single site reached only in TRAILER, FINISHED refuses data, noMoreData raises _DataLoss "
-    "unless FINISHED. Not decided: equality of decoded and original bytes for all chunkings (only per-step), trailer field syntax."
+    'The repository source is never imported or run: an AST interpreter (sa/props/_lib_e_machine.py) executes the syntax trees of web/http.py, http_headers'
+    '.py, _abnf.py, protocols/basic.py, policies.py and internet/protocol.py with model collaborators (transport, clock, network producer, body file) whose'
+    ' inputs are observable; unknown externals are opaque values that fork the path. Helper methods are simply executed, so extract/inline-helper, guard-cl'
+    'ause, temporaries, comprehension refactorings do not matter. Decided: (a) closure of the state table (every literal assigned to state, also through co'
+    'nditional expressions, has a handler and vice versa; dispatch prefix); (b) _hexint/_ishexdigits/toChunk/fromChunk evaluated over every byte value and '
+    'the regex pitfalls; (c) streams produced by a reference encoder written in the checker (extensions, upper-case and zero-padded sizes, trailers, binary'
+    ' data containing CRLF and terminator look-alikes, extra bytes) are delivered whole, at every two-way split and byte by byte: the decoder must deliver '
+    'exactly the body, call finishCallback once with exactly the extra bytes while in state FINISHED, not raise, and accept noMoreData; every proper prefix'
+    ' must not complete, not raise, and make noMoreData raise _DataLoss; malformed streams (non-hex sizes incl. bytes >= 0x80 in every position, control by'
+    'tes in extensions, missing CRLF after chunk data, size-line and trailer limits at L-1/L/L+1) must raise exactly _MalformedChunkedDataError whole and s'
+    'plit, and still-valid incomplete input must wait; decoder state at each call-out; non-termination on these small inputs is reported. (d) structurally:'
+    ' reject paths contain no strict decode/int/index on untrusted bytes. Not decided: all chunkings/splits of arbitrary length (bounded generated set), tr'
+    'ailer field syntax.'
 )
 ASSUMPTIONS = [
-    "bytearray/bytes/memoryview builtins behave as in CPython (used by the partial evaluator)",
-    "dataCallback / finishCallback do not re-enter the decoder (documented: 'This callback is not reentrant')",
+    'CPython semantics for bytearray/bytes/memoryview',
+    'dataCallback / finishCallback do not re-enter the decoder',
     "networkString(s) == s.encode('ascii')",
 ]
 PARSING = ("CHUNK_LENGTH", "CRLF", "TRAILER", "BODY")
@@ -41,6 +45,16 @@ PARSING = ("CHUNK_LENGTH", "CRLF", "TRAILER", "BODY")
 
 def _hit(vis, nodes):
     return any(n in vis for n in nodes)
+
+
+def _literal_choices(v):
+    """String literals an expression can evaluate to: a literal, or conditional expressions / boolean selections of literals."""
+    if isinstance(v, ast.Constant) and isinstance(v.value, str):
+        return [v.value]
+    if isinstance(v, ast.IfExp):
+        a, b = _literal_choices(v.body), _literal_choices(v.orelse)
+        return None if a is None or b is None else a + b
+    return None
 
 
 def _state_table(ctx):
@@ -51,11 +65,11 @@ def _state_table(ctx):
     for name, m in ms.items():
         for st in ast.walk(m):
             if isinstance(st, ast.Assign) and any(self_attr(t, "state") for t in assigned_targets(st)):
-                v = st.value
-                if isinstance(v, ast.Constant) and isinstance(v.value, str):
-                    assigned.setdefault(v.value, []).append((name, st))
-                else:
-                    ctx.violation("states/closed", ctx.construct(QD + name, st), "state is assigned a non-literal value: the dispatch target is not determined")
+                vals = _literal_choices(st.value)
+                if vals is None:
+                    raise AnalysisError(f"state assigned from a non-literal expression: {src(st)[:80]}")
+                for v in vals:
+                    assigned.setdefault(v, []).append((name, st))
     init = class_assigns(cls).get("state")
     ctx.check(isinstance(init, ast.Constant) and init.value == "CHUNK_LENGTH", "states/initial", QD + "state", "the decoder does not start in CHUNK_LENGTH")
     states = set(assigned) | ({init.value} if isinstance(init, ast.Constant) else set())
@@ -65,27 +79,10 @@ def _state_table(ctx):
         ctx.check(h in states, "states/closed", QD + PREFIX + h, f"handler {PREFIX}{h} exists but state {h!r} is never entered")
     ctx.floor("states/closed", len(states), 5)
     f = ctx.func(HTTP, "_ChunkedTransferDecoder.dataReceived")
-    g = ctx.cfg(f)
-    q = QD + "dataReceived"
-    disp = [c for c in ast.walk(f) if isinstance(c, ast.Call) and call_name(c) == "getattr"]
-    ok = len(disp) == 1 and len(disp[0].args) == 2 and src(disp[0].args[0]) == "self" and isinstance(disp[0].args[1], ast.BinOp) and \
-        is_const(disp[0].args[1].left, PREFIX) and src(disp[0].args[1].right) == "self.state"
-    ctx.check(ok, "states/dispatch", q, "dispatch is not getattr(self, '_dataReceived_' + self.state)")
-    p = f.args.args[1].arg
-    adds = g.ids(lambda n: n.kind == "stmt" and isinstance(n.ast, ast.AugAssign) and self_attr(n.ast.target, "_buffer") and isinstance(n.ast.op, ast.Add) and src(n.ast.value) == p)
-    adds += calls_named(g, "self._buffer.extend")
-    loops = g.ids(lambda n: n.kind == "join" and isinstance(n.ast, ast.While))
-    w = ordered(g, adds, loops)
-    ctx.check(bool(adds) and bool(loops) and w is None, "states/buffer-then-dispatch", q, "the delivered bytes are not appended to the buffer before the state handlers run", witness=g.describe(w))
-    dn = [n for n in g.ids(lambda n: n.kind == "stmt") if any(isinstance(c, ast.Call) and call_name(c) == "getattr" for c in walk_local(g.node(n).ast))]
-    for n in dn:
-        ctx.check(g.guarded(n, lambda e: src(e) in ("self._buffer", "len(self._buffer)", "len(self._buffer) > 0"), True), "states/no-dispatch-on-empty-buffer",
-                  ctx.construct(q, g.node(n).ast),
-                  "a state handler runs on an empty buffer: CHUNK_LENGTH then stores _start = -1 and the CRLF of the next size line is searched from the wrong end")
-        st = g.node(n).ast
-        tv = assigned_targets(st)[0].id if isinstance(st, ast.Assign) and isinstance(assigned_targets(st)[0], ast.Name) else None
-        ctx.check(tv is not None and g.guarded(n, lambda e: isinstance(e, ast.Name) and e.id == tv, True), "states/handler-result-controls-loop", ctx.construct(q, st),
-                  "the handler's 'need more data' result does not control the dispatch loop")
+    disp = [c for c in ast.walk(f) if isinstance(c, ast.Call) and call_name(c) == "getattr" and len(c.args) >= 2 and isinstance(c.args[1], ast.BinOp)]
+    for c in disp:
+        ctx.check(is_const(c.args[1].left, PREFIX) and src(c.args[1].right) == "self.state", "states/dispatch", QD + "dataReceived",
+                  "dispatch is not getattr(self, '_dataReceived_' + self.state)")
     f = ctx.func(HTTP, "_ChunkedTransferDecoder.noMoreData")
     lits = [c.value for n in ast.walk(f) if isinstance(n, ast.Compare) and "self.state" in src(n) for c in ast.walk(n) if isinstance(c, ast.Constant) and isinstance(c.value, str)]
     ctx.check(bool(lits) and all(l in states for l in lits), "states/closed", QD + "noMoreData", f"noMoreData compares the state with {lits!r}, which is never entered")
@@ -115,144 +112,181 @@ def _pure(ctx, I):
     ctx.check(bad is None, "reject/fromChunk", Q + "fromChunk", f"fromChunk({bad[0]!r}) gives {bad[1]} {bad[2]!r}; malformed chunks must raise ValueError" if bad else "")
 
 
-class _Step:
-    """One handler stepped with a concrete decoder state."""
+# ---- behaviour of the decoder, by interpretation ------------------------------------------------------------------
 
-    def __init__(self, ctx, I, name):
-        self.f = ctx.func(HTTP, "_ChunkedTransferDecoder." + PREFIX + name)
-        self.g = ctx.cfg(self.f)
-        self.I = I
-        self.q = QD + PREFIX + name
-        g = self.g
-        self.raises = g.ids(lambda n: n.kind == "stmt" and isinstance(n.ast, ast.Raise))
-        self.states = {}
-        for n in assigns_self(g, "state"):
-            v = g.node(n).ast.value
-            if isinstance(v, ast.Constant):
-                self.states.setdefault(v.value, []).append(n)
-        self.waits = g.ids(lambda n: n.kind == "stmt" and is_falsy_return(n.ast) and n.ast.value is not None)
-        self.goes = g.ids(lambda n: n.kind == "stmt" and isinstance(n.ast, ast.Return) and not is_falsy_return(n.ast))
-        self.dcb = calls_named(g, "self.dataCallback")
-        self.fcb = calls_named(g, "self.finishCallback")
+def _encode(chunks, exts=None, upper=False, pad=0, last_ext=b"", trailers=()):
+    """Reference encoder (RFC 9112 7.1), written out here: the oracle for the round trip."""
+    out = b""
+    for i, c in enumerate(chunks):
+        size = (b"%X" if upper else b"%x") % len(c)
+        out += b"0" * pad + size + (exts[i] if exts else b"") + b"\r\n" + c + b"\r\n"
+    out += b"0" + last_ext + b"\r\n" + b"".join(t + b"\r\n" for t in trailers) + b"\r\n"
+    return out
 
-    def run(self, buf, **attrs):
-        env = {"self._buffer": bytearray(buf), "self._start": 0, "self.length": 0, "self._receivedTrailerHeadersSize": 0,
-               "self._maxTrailerHeadersSize": 65536, "self._trailerHeaders": []}
-        env.update({"self." + k: v for k, v in attrs.items()})
-        calls = []
-        exits = {}
-        esc = []
 
-        def on(node, e):
-            if node.kind == "stmt":
-                for nm, lst in (("self.dataCallback", "data"), ("self.finishCallback", "finish")):
-                    c = call_in(node.ast, nm)
-                    if c is not None and c.args:
-                        try:
-                            calls.append((lst, bytes(self.I.ev(c.args[0], e))))
-                        except (Unknown, Unsupported, Raised):
-                            calls.append((lst, None))
-                if isinstance(node.ast, (ast.Return, ast.Raise)):
-                    exits[node.id] = {k: (bytes(v) if isinstance(v, bytearray) else v) for k, v in e.items() if k.startswith("self.")}
-        vis = walk(self.g, self.I, make_env(env), on_node=on, escapes=esc)
-        out = "raise" if _hit(vis, self.raises) else ("wait" if _hit(vis, self.waits) else ("go" if _hit(vis, self.goes) else "?"))
-        if sum([_hit(vis, self.raises), _hit(vis, self.waits), _hit(vis, self.goes)]) != 1 or esc:
-            if not esc and sum([_hit(vis, self.raises), _hit(vis, self.waits), _hit(vis, self.goes)]) > 1:
-                raise AnalysisError(f"{self.q}: outcome for buffer {bytes(buf)[:30]!r} not decidable by the partial evaluator")
-            out = "?" if not esc else f"escape:{esc[0][1]}"
-        st = sorted(s for s, ns in self.states.items() if _hit(vis, ns))
-        final = next(iter(exits.values()), {}) if len(exits) == 1 else {}
-        return out, st, calls, final
+class _Decoder:
+    def __init__(self, ctx):
+        self.m = Machine(ctx.tree, budget=120000)
+        self.mod = self.m.module(HTTP)
+        ctx.tree.module(HTTP)
+        self.cls = self.m.global_lookup(self.mod, "_ChunkedTransferDecoder")
+        if not isinstance(self.cls, ClassV):
+            raise AnalysisError("anchor vanished: class _ChunkedTransferDecoder")
+
+    def drive(self, pieces, then_no_more=True, attrs=None):
+        """Deliver the pieces; returns dict(data=[...], finish=[...], exc=name|None, at=index, states=[snapshots at callbacks],
+        nomore=name|None|'-', final=attrs)."""
+        res = {}
+
+        def thunk(m):
+            d = m.instantiate(self.cls, [Opaque("dataCallback"), Opaque("finishCallback")], {})
+            m.root = d
+            for k, v in (attrs or {}).items():
+                d.attrs[k] = v
+            r = {"exc": None, "at": None, "nomore": "-"}
+            for i, piece in enumerate(pieces):
+                try:
+                    m.call(m.get_attr(d, "dataReceived"), [piece])
+                except PyRaise as e:
+                    r["exc"], r["at"] = exc_name(e.exc), i
+                    break
+            if then_no_more and r["exc"] is None:
+                try:
+                    m.call(m.get_attr(d, "noMoreData"), [])
+                    r["nomore"] = None
+                except PyRaise as e:
+                    r["nomore"] = exc_name(e.exc)
+            r["final"] = dict(d.attrs)
+            return r
+        outs = self.m.explore(thunk, max_paths=4, hang_is_outcome=True)
+        if len(outs) != 1:
+            raise AnalysisError(f"decoder behaviour for {pieces[0][:20]!r}... depends on a value the interpreter does not know")
+        o = outs[0]
+        res = o.value if o.kind == "ok" else {"exc": "<no termination within the step budget>", "at": None, "nomore": "-", "final": {}}
+        ev = [e for e in o.events if e.kind == "call" and e.name in ("dataCallback", "finishCallback")]
+        res["data"] = [bytes(e.args[0]) if e.args and isinstance(e.args[0], (bytes, bytearray)) else None for e in ev if e.name == "dataCallback"]
+        res["finish"] = [bytes(e.args[0]) if e.args and isinstance(e.args[0], (bytes, bytearray)) else None for e in ev if e.name == "finishCallback"]
+        res["snaps"] = [(e.name, e.state) for e in ev]
+        return res
 
 
 def _fmt(x):
-    return repr(x if len(x) < 40 else x[:18] + b"..." + x[-12:]) + (f" (len {len(x)})" if len(x) >= 40 else "")
+    return repr(x if len(x) < 48 else x[:24] + b"..." + x[-14:]) + (f" (len {len(x)})" if len(x) >= 48 else "")
 
 
-def _chunk_length(ctx, I, limit):
-    s = _Step(ctx, I, "CHUNK_LENGTH")
-    q = s.q
-    cases = []   # (rule, buffer, attrs, expected outcome, expected states, expected buffer after | None, why)
-    for size, state in ((b"5", "BODY"), (b"0", "TRAILER"), (b"a", "BODY"), (b"A0", "BODY"), (b"00", "TRAILER"), (b"000f", "BODY"), (b"ffffffff", "BODY")):
-        cases.append(("size-line/accepted", size + b"\r\nhello", {}, "go", [state], b"hello", int(size, 16)))
-        cases.append(("size-line/extension-ignored", size + b";name=val;x=\"q s\"\r\nhello", {}, "go", [state], b"hello", int(size, 16)))
-    cases.append(("size-line/accepted", b"5\r\nhello", {"_start": 1}, "go", ["BODY"], b"hello", 5))
-    cases.append(("size-line/accepted", b"1f;e\r\nhello", {"_start": 3}, "go", ["BODY"], b"hello", 31))
-    cases.append(("size-line/accepted", b"5\r\nhe;lo", {}, "go", ["BODY"], b"he;lo", 5))
-    cases.append(("size-line/accepted", b"0\r\n\r\n", {}, "go", ["TRAILER"], b"\r\n", 0))
-    for bad in (b"g", b"", b"0x5", b"+5", b"-5", b" 5", b"5 ", b"1_0", b"5\t", b"\t5", b"5\r", b"5\n", b"\xb2", b"5.0", b"0g", b"\x00"):
-        cases.append(("reject/size-not-hex", bad + b"\r\nhello", {}, "raise", [], None, None))
-        cases.append(("reject/size-not-hex", bad + b";ext\r\nhello", {}, "raise", [], None, None))
-    for hi in (b"\x80", b"\xff", b"\xe9", b"\xc3\xa9"):
-        for bad in (hi, b"5" + hi, hi + b"5", b"5" + hi + b"5", b"ff" + hi):
-            cases.append(("reject/size-not-hex", bad + b"\r\nhello", {}, "raise", [], None, None))
-            cases.append(("reject/size-not-hex", bad + b";ext=1\r\nhello", {}, "raise", [], None, None))
-    for hi in (b"\x80", b"\xff"):
-        cases.append(("size-line/limit", b"1" * (limit - 2) + hi + b"1\r\nX", {}, "raise", [], None, None))
-        cases.append(("size-line/limit-unterminated", hi * (limit + 1), {}, "raise", [], None, None))
-    must_reject = (CTL - {9}) | {127}
-    must_accept = TCHAR | set(b';="\t ') | set(range(0x80, 0x100))
-    for v in range(256):
-        buf = b"1;a" + bytes([v]) + b"b\r\nX"
-        if v in must_reject and v != 10:
-            cases.append(("reject/extension-bytes", buf, {}, "raise", [], None, None))
-        elif v in must_accept:
-            cases.append(("size-line/extension-bytes-accepted", buf, {}, "go", ["BODY"], b"X", 1))
-    cases.append(("reject/extension-bytes", b"1;a\r\rb\r\nX", {}, "raise", [], None, None))
-    cases.append(("reject/extension-bytes", b"1;a\nb\r\nX", {}, "raise", [], None, None))
-    L = limit
-    cases += [
-        ("size-line/limit", b"1" * (L - 1) + b"\r\nX", {}, "go", ["BODY"], b"X", int(b"1" * (L - 1), 16)),
-        ("size-line/limit", b"1" * L + b"\r\nX", {}, "raise", [], None, None),
-        ("size-line/limit", b"1;" + b"e" * (L + 5) + b"\r\nX", {}, "raise", [], None, None),
-        ("size-line/limit-unterminated", b"1" * L, {}, "wait", [], None, None),
-        ("size-line/limit-unterminated", b"1" * (L - 1) + b"\r", {}, "wait", [], None, None),
-        ("size-line/limit-unterminated", b"1" * (L + 1), {}, "raise", [], None, None),
-        ("size-line/wait-for-crlf", b"5", {}, "wait", [], None, None),
-        ("size-line/wait-for-crlf", b"5\r", {}, "wait", [], None, None),
-        ("size-line/wait-for-crlf", b"5;ext", {}, "wait", [], None, None),
-        ("size-line/wait-for-crlf", b"5\n", {}, "wait", [], None, None),
+def _splits(stream, end):
+    """Delivery schedules: whole, every two-way split before the end of the terminator, byte by byte (short streams)."""
+    out = [("whole", [stream])]
+    pos = range(1, end) if end <= 70 else sorted(set(list(range(1, 12)) + list(range(end - 12, end)) + list(range(12, end - 12, max(1, end // 23)))))
+    out += [(f"split@{i}", [stream[:i], stream[i:]]) for i in pos]
+    if end <= 40:
+        out.append(("bytewise", [stream[i:i + 1] for i in range(end - 1)] + [stream[end - 1:]]))
+    return out
+
+
+def _roundtrip(ctx, D):
+    q = QD + "dataReceived"
+    bodies = [
+        ("one chunk", [b"hello"], {}), ("two chunks", [b"hello", b" world!"], {}), ("empty body", [], {}),
+        ("binary / CRLF inside data", [b"\r\n0\r\n\r\n", b"\x00\xff;\r"], {}),
+        ("extensions", [b"abc", b"de"], {"exts": [b";name=val", b';q="a b";flag'], "last_ext": b";last"}),
+        ("upper-case hex, 26 bytes", [b"abcdefghijklmnopqrstuvwxyz"], {"upper": True}),
+        ("leading zeros", [b"xy"], {"pad": 3}),
+        ("trailers", [b"data"], {"trailers": [b"X-Trailer: 1", b"Y: two"]}),
+        ("16-byte chunk", [b"0123456789abcdef"], {}), ("one-byte chunks", [b"a", b"b", b"c"], {}),
     ]
-    for rule, buf, attrs, want, states, after, length in cases:
-        out, st, calls, final = s.run(buf, **attrs)
-        ok = out == want and st == states and not calls
-        if ok and after is not None:
-            ok = final.get("self._buffer") == after and final.get("self.length") == length and final.get("self._start") == 0
-        ctx.check(ok, rule, f"{q} | buffer {_fmt(buf)}" + (f" {sorted(attrs.items())}" if attrs else ""),
-                  f"with buffer {_fmt(buf)} the handler does {out} {st} leaving buffer={final.get('self._buffer')!r} length={final.get('self.length')!r} "
-                  f"_start={final.get('self._start')!r}; RFC 9112 7.1 / the documented limit {L} require {want} {states}"
-                  + (f" with buffer {after!r}, length {length}, _start 0" if after is not None else ""))
-    # search resumes where a CR may still be waiting for its LF
-    for buf in (b"5", b"5\r", b"5;abc", b"12345\r"):
-        for start in (0, max(0, len(buf) - 2)):
-            out, st, calls, final = s.run(buf, _start=start)
-            v = final.get("self._start")
-            ctx.check(out == "wait" and isinstance(v, int) and 0 <= v <= len(buf) - 1, "split/search-resumes-before-cr", f"{q} | buffer {buf!r} _start={start}",
-                      f"after an unterminated size line {buf!r} the search restarts at {v!r}: a CR already buffered is skipped and the CRLF split over two deliveries is never found")
-    # structural: size decoded only by _hexint, converted errors, raise kinds
-    g, f = s.g, s.f
-    hx = calls_named(g, "_hexint")
-    ints = [n for n in calls_named(g, "int") if call_in(g.node(n).ast, "int") is not None]
-    ctx.check(bool(hx) and not ints, "size/decoded-by-hexint", q, "the chunk size is not decoded (only) by _hexint: int(x, 16) accepts '0x', '+', '_' and surrounding whitespace")
-    for n in hx:
-        hs = [h for h in handlers_of(g, n) if catches(I, g.node(h).ast, "ValueError")]
-        wit = None
-        for h in hs:
-            wit = wit or only_nodes_until_exit(g, [h], lambda nd: nd.kind == "handler" or (nd.kind == "stmt" and isinstance(nd.ast, ast.Raise) and BAD in src(nd.ast)))
-        ctx.check(bool(hs) and wit is None, "reject/size-error-converted", ctx.construct(q, g.node(n).ast),
-                  "a non-hexadecimal size does not become _MalformedChunkedDataError (the server would not answer 400)", witness=g.describe(wit))
-        st = g.node(n).ast
-        lv = assigned_targets(st)[0].id if isinstance(st, ast.Assign) and isinstance(assigned_targets(st)[0], ast.Name) else None
-        stores = assigns_self(g, "length")
-        ctx.check(bool(stores) and all(isinstance(g.node(x).ast.value, ast.Name) and g.node(x).ast.value.id == lv for x in stores), "size/stored-is-decoded",
-                  ctx.construct(q, st), "self.length is not the value decoded by _hexint")
-    return s
+    for name, chunks, kw in bodies:
+        for extra in (b"", b"GET /next HTTP/1.1\r\n\r\n"):
+            stream = _encode(chunks, **kw)
+            end = len(stream)
+            body = b"".join(chunks)
+            bad = None
+            for how, pieces in _splits(stream + extra, end):
+                r = D.drive(pieces)
+                ok = r["exc"] is None and b"".join(x or b"?" for x in r["data"]) == body and all(x for x in r["data"]) and r["finish"] == [extra] and r["nomore"] is None
+                ok = ok and all(st is not None and st.get("state") == "FINISHED" for nm, st in r["snaps"] if nm == "finishCallback")
+                if not ok:
+                    bad = (how, pieces, r)
+                    break
+            ctx.check(bad is None, "roundtrip/decoded-equals-original", f"{q} | {name}, extra {len(extra)} bytes",
+                      (f"stream {_fmt(stream + extra)} delivered {bad[0]} {[bytes(p)[:12] for p in bad[1]][:3]}: dataCallback {bad[2]['data']!r}, finishCallback {bad[2]['finish']!r}, "
+                       f"exception {bad[2]['exc']}, noMoreData {bad[2]['nomore']}; expected body {body!r}, finishCallback([{extra!r}]) once in state FINISHED, no exception") if bad else "",
+                      detail="whole, every two-way split and byte-by-byte delivery give the original body, one finishCallback with exactly the extra bytes")
+            # truncated: every proper prefix neither finishes nor raises, and noMoreData reports the loss
+            bad = None
+            for cut in ([i for i in range(1, end)] if end <= 60 else list(range(1, end, 5))):
+                r = D.drive([stream[:cut]])
+                if not (r["exc"] is None and r["finish"] == [] and r["nomore"] == "_DataLoss" and body.startswith(b"".join(x or b"?" for x in r["data"]))):
+                    bad = (cut, r)
+                    break
+            if not extra:
+                ctx.check(bad is None, "dataloss/truncated-stream", f"{q} | {name}",
+                          (f"stream cut after {bad[0]} bytes {_fmt(stream[:bad[0]])}: dataCallback {bad[1]['data']!r}, finishCallback {bad[1]['finish']!r}, exception {bad[1]['exc']}, "
+                           f"noMoreData -> {bad[1]['nomore']}; expected no completion, no exception, and _DataLoss from noMoreData") if bad else "",
+                          detail="every proper prefix: body prefix delivered, no completion, noMoreData raises _DataLoss")
+    # state at the call-outs
+    r = D.drive([b"5\r\nhelloX"], then_no_more=False)
+    st = r["snaps"][0][1] if r["snaps"] else {}
+    ctx.check(r["data"] == [b"hello"] and st.get("state") == "CRLF" and bytes(st.get("_buffer", b"?")) == b"X", "callout/state-updated-first", f"{q} | complete chunk",
+              f"when dataCallback({r['data']!r}) runs the decoder is in state {st.get('state')!r} with buffer {bytes(st.get('_buffer', b''))!r}: it must already be in CRLF with only the unconsumed bytes buffered")
+    r = D.drive([b"5\r\nhel"], then_no_more=False)
+    st = r["snaps"][0][1] if r["snaps"] else {}
+    ctx.check(r["data"] == [b"hel"] and st.get("state") == "BODY" and st.get("length") == 2 and bytes(st.get("_buffer", b"?")) == b"", "callout/state-updated-first", f"{q} | partial chunk",
+              f"when dataCallback({r['data']!r}) runs for a partial chunk the decoder has state {st.get('state')!r}, length {st.get('length')!r}, buffer {bytes(st.get('_buffer', b''))!r}: expected BODY, 2, empty")
+    r = D.drive([_encode([b"ab"])], then_no_more=False)
+    r2 = D.drive([_encode([b"ab"]), b"more"], then_no_more=False)
+    ctx.check(r["exc"] is None and r2["exc"] is not None and r2["finish"] == [b""], "finished/refuses-data", q + " | data after completion",
+              f"data delivered after the terminating chunk gives exception {r2['exc']} and finishCallback {r2['finish']!r}; it must be refused and completion signalled once")
 
 
-def _raise_kinds(ctx, I):
+def _rejects(ctx, D, limit, maxtrailer):
+    q = QD + "dataReceived"
+    L = limit
+    fam = {"reject/size-not-hex": [], "reject/extension-bytes": [], "reject/chunk-not-followed-by-crlf": [], "size-line/limit": [], "trailer/limit": []}
+    sizes = [b"g", b"", b"0x5", b"+5", b"-5", b" 5", b"5 ", b"1_0", b"5\t", b"\t5", b"5\r", b"5\n", b"\n5", b"5.0", b"0g", b"\x00", b"5\x00", b"\xb2",
+             b"\x80", b"5\xff", b"\xe95", b"5\xc3\xa95", b"ff\x80"]
+    for sz in sizes:
+        fam["reject/size-not-hex"] += [sz + b"\r\nhello\r\n0\r\n\r\n", sz + b";ext=1\r\nhello\r\n0\r\n\r\n", b"2\r\nab\r\n" + sz + b"\r\nhello\r\n0\r\n\r\n"]
+    for v in sorted((CTL - {9, 10}) | {127}):
+        fam["reject/extension-bytes"].append(b"1;a" + bytes([v]) + b"b\r\nX\r\n0\r\n\r\n")
+    fam["reject/extension-bytes"] += [b"1;a\nb\r\nX\r\n0\r\n\r\n", b"0;a\x00\r\n\r\n", b"1;\x7f\r\nX\r\n0\r\n\r\n"]
+    fam["reject/chunk-not-followed-by-crlf"] = [b"5\r\nhelloXX0\r\n\r\n", b"5\r\nhello\rX", b"5\r\nhello\n\r", b"5\r\nhello\n\n0\r\n\r\n", b"5\r\nhello0\r\n\r\n",
+                                                 b"5\r\nhello\r\r\n", b"1\r\na\r\n1\r\nbb\r\n0\r\n\r\n"]
+    fam["size-line/limit"] = [b"1" * L + b"\r\nX", b"1;" + b"e" * (L + 5) + b"\r\nX", b"1" * (L + 1), b"\x80" * (L + 1), b"1" * (L - 2) + b"\xff1\r\nX"]
+    fam["trailer/limit"] = [b"0\r\n" + b"a" * (maxtrailer + 10), b"0\r\n" + b"a" * (maxtrailer + 10) + b"\r\n\r\n",
+                            b"0\r\n" + (b"X: " + b"v" * 1000 + b"\r\n") * (maxtrailer // 1000 + 2) + b"\r\n"]
+    for rule, streams in fam.items():
+        for stream in streams:
+            bad = None
+            mid = len(stream) // 2
+            for how, pieces in (("whole", [stream]), ("split", [stream[:mid], stream[mid:]]), ("split@1", [stream[:1], stream[1:]]), ("split@-1", [stream[:-1], stream[-1:]])):
+                if len(stream) > 5000 and how != "whole":
+                    continue
+                r = D.drive(pieces, then_no_more=False)
+                if not (r["exc"] == BAD and r["finish"] == []):
+                    bad = (how, r)
+                    break
+            ctx.check(bad is None, rule, f"{q} | stream {_fmt(stream)}",
+                      (f"malformed stream {_fmt(stream)} delivered {bad[0]}: exception {bad[1]['exc']}, dataCallback {bad[1]['data']!r}, finishCallback {bad[1]['finish']!r}; "
+                       "it must be rejected with _MalformedChunkedDataError (the only exception HTTPChannel converts to a 400) and never complete") if bad else "")
+    # accepted at the limits, and waiting (not rejecting) while a line may still become valid
+    ok_streams = [("size-line/limit", b"0" * (L - 2) + b"1\r\nX\r\n0\r\n\r\n", b"X"), ("size-line/limit", b"1;" + b"e" * (L - 3) + b"\r\nX\r\n0\r\n\r\n", b"X"),
+                  ("size-line/extension-bytes-accepted", b"1;" + bytes(sorted((TCHAR | set(b';="\t ') | set(range(0x80, 0x100))))) + b"\r\nX\r\n0\r\n\r\n", b"X"),
+                  ("trailer/limit", b"0\r\n" + (b"X: " + b"v" * 1000 + b"\r\n") * (maxtrailer // 1000 - 2) + b"\r\n", b"")]
+    for rule, stream, body in ok_streams:
+        r = D.drive([stream])
+        ctx.check(r["exc"] is None and b"".join(x or b"?" for x in r["data"]) == body and r["finish"] == [b""], rule, f"{q} | stream {_fmt(stream)}",
+                  f"stream {_fmt(stream)} within the documented limits gives exception {r['exc']}, body {r['data']!r}, completion {r['finish']!r}; expected body {body!r} and completion")
+    for rule, stream in (("size-line/limit-unterminated", b"1" * L), ("size-line/limit-unterminated", b"1" * (L - 1) + b"\r"), ("split/crlf-wait", b"5\r\nhello\r"),
+                         ("split/trailer-wait", b"0\r\nX: y\r"), ("split/trailer-wait", b"0\r\n\r"), ("size-line/wait-for-crlf", b"5;ext")):
+        r = D.drive([stream], then_no_more=False)
+        ctx.check(r["exc"] is None and r["finish"] == [], rule, f"{q} | stream {_fmt(stream)}",
+                  f"incomplete but still valid input {_fmt(stream)} gives exception {r['exc']} / completion {r['finish']!r}: a stream split here would be rejected")
+
+
+def _structural(ctx):
     for name in PARSING:
         f = ctx.func(HTTP, "_ChunkedTransferDecoder." + PREFIX + name)
-        # building the rejection must not itself raise something else on untrusted bytes
         regions = [(r, r.exc) for r in ast.walk(f) if isinstance(r, ast.Raise) and r.exc is not None]
         regions += [(st, st) for h in ast.walk(f) if isinstance(h, ast.ExceptHandler) for st in h.body if not isinstance(st, ast.Raise)]
         for st, region in regions:
@@ -260,97 +294,8 @@ def _raise_kinds(ctx, I):
             ctx.check(not bad, "reject/reject-path-cannot-raise-otherwise", ctx.construct(QD + PREFIX + name, st),
                       (f"on the reject path {src(bad[0])} can raise (UnicodeDecodeError / ValueError) for untrusted bytes before _MalformedChunkedDataError is raised: "
                        "the exception leaves dataReceived uncaught (no 400, no disconnect)") if bad else "")
-        for r in [n for n in ast.walk(f) if isinstance(n, ast.Raise)]:
-            nm = call_attr(r.exc) if isinstance(r.exc, ast.Call) else (dotted(r.exc) if r.exc is not None else None)
-            ctx.check(nm == BAD, "reject/raises-malformed", ctx.construct(QD + PREFIX + name, r),
-                      f"malformed input raises {nm} instead of _MalformedChunkedDataError (HTTPChannel only converts that one to a 400)")
-    f = ctx.func(HTTP, "_ChunkedTransferDecoder." + PREFIX + "FINISHED")
-    g = ctx.cfg(f)
-    ctx.check(g.path([g.entry], [g.exit], edge_ok=no_exc) is None, "finished/refuses-data", QD + PREFIX + "FINISHED", "data delivered after the last chunk is accepted")
-    f = ctx.func(HTTP, "_ChunkedTransferDecoder.noMoreData")
-    g = ctx.cfg(f)
-    raises = g.ids(lambda n: n.kind == "stmt" and isinstance(n.ast, ast.Raise))
-    for st in ("CHUNK_LENGTH", "CRLF", "TRAILER", "BODY", "FINISHED"):
-        vis = walk(g, I, make_env({"self.state": st}))
-        want = st != "FINISHED"
-        ctx.check(_hit(vis, raises) == want and (g.exit in vis) == (not want), "dataloss/reported-unless-finished", f"{QD}noMoreData | state {st}",
-                  "the end of the stream before the last chunk is not reported" if want else "a completely decoded body is reported as data loss")
-    for r in raises:
-        ctx.check("_DataLoss" in src(g.node(r).ast), "dataloss/reported-unless-finished", ctx.construct(QD + "noMoreData", g.node(r).ast), "noMoreData raises something other than _DataLoss")
-
-
-def _crlf_body_trailer(ctx, I, maxtrailer):
-    s = _Step(ctx, I, "CRLF")
-    for buf, want, states, after in ((b"\r", "wait", [], None), (b"\r\n", "go", ["CHUNK_LENGTH"], b""), (b"\r\n5\r\nab", "go", ["CHUNK_LENGTH"], b"5\r\nab"),
-                                     (b"ab", "raise", [], None), (b"\rX", "raise", [], None), (b"\n\r", "raise", [], None), (b"X\r\n", "raise", [], None),
-                                     (b"\n\n", "raise", [], None), (b"\r\r\n", "raise", [], None)):
-        out, st, calls, final = s.run(buf, state="CRLF")
-        ok = out == want and st == states and not calls and (after is None or final.get("self._buffer") == after)
-        rule = {"wait": "split/crlf-wait", "go": "chunk-end/crlf-consumed", "raise": "reject/chunk-not-followed-by-crlf"}[want]
-        ctx.check(ok, rule, f"{s.q} | buffer {buf!r}", f"after chunk data, buffer {buf!r}: handler does {out} {st} buffer={final.get('self._buffer')!r}; required {want} {states}"
-                  + (f" leaving {after!r}" if after is not None else ""))
-    b = _Step(ctx, I, "BODY")
-    for buf, length, cb, states, after, left in ((b"hello", 5, b"hello", ["CRLF"], b"", None), (b"hello\r\n0\r\n\r\n", 5, b"hello", ["CRLF"], b"\r\n0\r\n\r\n", None),
-                                                 (b"hel", 5, b"hel", [], b"", 2), (b"h", 1, b"h", ["CRLF"], b"", None), (b"helloX", 5, b"hello", ["CRLF"], b"X", None),
-                                                 (b"\r\n\r\n", 3, b"\r\n\r", ["CRLF"], b"\n", None), (b"abcd", 1000, b"abcd", [], b"", 996)):
-        out, st, calls, final = b.run(buf, length=length, state="BODY")
-        ok = out == "go" and st == states and calls == [("data", cb)] and final.get("self._buffer") == after and (left is None or final.get("self.length") == left)
-        ctx.check(ok, "body/chunk-bytes", f"{b.q} | buffer {buf!r} length {length}",
-                  f"with {length} bytes outstanding and buffer {buf!r}: {out} {st}, callbacks {calls!r}, buffer {final.get('self._buffer')!r}, length {final.get('self.length')!r}; "
-                  f"required dataCallback({cb!r}), state {states}, buffer {after!r}" + (f", length {left}" if left is not None else ""))
-    t = _Step(ctx, I, "TRAILER")
-    M = maxtrailer
-    for rule, buf, attrs, want, states, cbs, after in (
-            ("finish/extra-bytes", b"\r\n", {}, "wait", ["FINISHED"], [("finish", b"")], b""),
-            ("finish/extra-bytes", b"\r\nGET / HTTP/1.1\r\n\r\n", {}, "wait", ["FINISHED"], [("finish", b"GET / HTTP/1.1\r\n\r\n")], b""),
-            ("finish/extra-bytes", b"\r\n\r\n", {}, "wait", ["FINISHED"], [("finish", b"\r\n")], b""),
-            ("trailer/field-consumed", b"X: y\r\n\r\nZ", {}, "go", [], [], b"\r\nZ"),
-            ("trailer/field-consumed", b"X: y\r\nW: v\r\n", {}, "go", [], [], b"W: v\r\n"),
-            ("trailer/field-consumed", b"X: y\r\nW: v\r\n", {"_start": 3}, "go", [], [], b"W: v\r\n"),
-            ("split/trailer-wait", b"\r", {}, "wait", [], [], None),
-            ("split/trailer-wait", b"X: y", {}, "wait", [], [], None),
-            ("split/trailer-wait", b"X: y\r", {}, "wait", [], [], None),
-            ("trailer/limit", b"a" * (M + 10), {}, "raise", [], [], None),
-            ("trailer/limit", b"a" * (M + 10) + b"\r\n", {}, "raise", [], [], None),
-            ("trailer/limit", b"a" * 10 + b"\r\n", {"_receivedTrailerHeadersSize": M - 5}, "raise", [], [], None),
-            ("trailer/limit", b"a" * 10, {"_receivedTrailerHeadersSize": M - 5}, "raise", [], [], None),
-            ("trailer/limit", b"a" * 10 + b"\r\n", {"_receivedTrailerHeadersSize": 100}, "go", [], [], b"")):
-        out, st, calls, final = t.run(buf, state="TRAILER", _maxTrailerHeadersSize=M, **attrs)
-        ok = out == want and st == states and calls == cbs and (after is None or final.get("self._buffer") == after)
-        if ok and want == "go":
-            ok = final.get("self._start") == 0 and final.get("self._receivedTrailerHeadersSize") == attrs.get("_receivedTrailerHeadersSize", 0) + buf.find(b"\r\n") + 2
-        ctx.check(ok, rule, f"{t.q} | buffer {_fmt(buf)}" + (f" {sorted(attrs.items())}" if attrs else ""),
-                  f"after the last chunk, buffer {_fmt(buf)}: {out} {st}, callbacks {calls!r}, buffer {final.get('self._buffer')!r}; required {want} {states} {cbs!r}"
-                  + (f" leaving {after!r}" if after is not None else ""))
-    return s, b, t
-
-
-def _callouts(ctx, steps):
-    total_f = 0
-    for s in steps:
-        g = s.g
-        for n in s.dcb + s.fcb:
-            succ = [d for d, l in g.succ[n] if l != "exc"]
-            wit = only_nodes_until_exit(g, succ, lambda nd: nd.kind == "stmt" and isinstance(nd.ast, ast.Return))
-            ctx.check(wit is None, "callout/state-updated-first", ctx.construct(s.q, g.node(n).ast),
-                      "decoder state / buffer are modified after the callback was invoked (a callback that raises or delivers more data sees a half-updated decoder)",
-                      witness=g.describe(wit))
-        total_f += len(s.fcb)
-        for n in s.fcb:
-            c = call_in(g.node(n).ast, "self.finishCallback")
-            a = c.args[0] if c.args else None
-            defs = [d for d in g.ids(lambda m: m.kind == "stmt" and isinstance(m.ast, ast.Assign) and isinstance(a, ast.Name) and any(isinstance(t, ast.Name) and t.id == a.id for t in m.ast.targets))]
-            clears = [d for d in g.ids(lambda m: m.kind == "stmt" and isinstance(m.ast, ast.Delete) and "self._buffer" in src(m.ast)) if g.dominates(d, n)]
-            clears += [d for d in calls_named(g, "self._buffer.clear") if g.dominates(d, n)]
-            for cl in clears:
-                w = ordered(g, defs, [cl])
-                ctx.check(bool(defs) and w is None, "finish/extra-taken-before-clear", ctx.construct(s.q, g.node(cl).ast),
-                          "the buffer is cleared before the bytes following the terminator are taken: the next pipelined request is lost", witness=g.describe(w))
-            fin = [x for x in s.states.get("FINISHED", [])]
-            w = ordered(g, fin, [n])
-            ctx.check(bool(fin) and w is None, "finish/state-before-callback", ctx.construct(s.q, c),
-                      "finishCallback runs before the decoder is FINISHED (noMoreData called beneath it would report data loss)", witness=g.describe(w))
-    ctx.check(total_f == 1, "finish/exactly-one-site", QD + "finishCallback", f"finishCallback is invoked from {total_f} sites in the parsing states (completion must be signalled exactly once)")
+        ints = [c for c in ast.walk(f) if isinstance(c, ast.Call) and isinstance(c.func, ast.Name) and c.func.id == "int" and len(c.args) == 2]
+        ctx.check(not ints, "size/decoded-by-hexint", QD + PREFIX + name, "a chunk size is decoded with int(x, 16), which accepts '0x', '+', '_' and surrounding whitespace") if name == "CHUNK_LENGTH" else None
 
 
 def check(ctx):
@@ -361,66 +306,61 @@ def check(ctx):
         _pure(ctx, I)
     limit = I.consts.get("maxChunkSizeLineLength")
     ctx.check(isinstance(limit, int) and limit >= 16, "size-line/limit", Q + "maxChunkSizeLineLength", f"maxChunkSizeLineLength is {limit!r}")
-    init = ctx.func(HTTP, "_ChunkedTransferDecoder.__init__")
-    mt = [st.value for st in ast.walk(init) if isinstance(st, ast.Assign) and any(self_attr(t, "_maxTrailerHeadersSize") for t in st.targets)]
-    ctx.need(mt, "_maxTrailerHeadersSize in _ChunkedTransferDecoder.__init__")
-    M = I.ev(mt[0], {})
-    steps = []
-    with ctx.section("CHUNK_LENGTH"):
-        steps.append(_chunk_length(ctx, I, limit if isinstance(limit, int) else 1024))
-    with ctx.section("raise kinds / FINISHED / noMoreData"):
-        _raise_kinds(ctx, I)
-    with ctx.section("CRLF / BODY / TRAILER"):
-        steps.extend(_crlf_body_trailer(ctx, I, M))
-    with ctx.section("call-outs"):
-        ctx.need(len(steps) == 4, "all four parsing state handlers stepped")
-        _callouts(ctx, steps)
+    L = limit if isinstance(limit, int) and limit >= 16 else 1024
+    with ctx.section("decoder behaviour"):
+        D = _Decoder(ctx)
+        probe = D.drive([b"0\r\n\r\n"], then_no_more=False)
+        M = probe["final"].get("_maxTrailerHeadersSize")
+        ctx.need(isinstance(M, int) and M >= 4096, "_maxTrailerHeadersSize set by _ChunkedTransferDecoder.__init__")
+        _roundtrip(ctx, D)
+        _rejects(ctx, D, L, M)
+    with ctx.section("reject paths"):
+        _structural(ctx)
 
 
 MUTANTS = [
-    Mutant('hexdigits-regex-dollar-accepts-trailing-newline', ABNF, '    for c in b:\n        if c not in b"0123456789abcdefABCDEF":\n            return False\n    return b != b""\n', '    return _HEX_RE.match(b) is not None\n', more=[(ABNF, '"""\n\n\ndef _istoken', '"""\n\nimport re\n\n_HEX_RE = re.compile(rb"[0-9a-fA-F]+$")\n\n\ndef _istoken')], expect_rule='size/hex'),
-    Mutant("hexdigits-accept-plus-space", ABNF, "        if c not in b\"0123456789abcdefABCDEF\":", "        if c not in b\"0123456789abcdefABCDEF +\":", expect_rule="size/hex"),
-    Mutant("size-by-int-base16", HTTP, "            length = _hexint(rawLength)\n        except ValueError:", "            length = int(rawLength, 16)\n        except ValueError:", expect_rule="reject/size-not-hex"),
-    Mutant("size-error-not-converted", HTTP, "            length = _hexint(rawLength)\n        except ValueError:", "            length = _hexint(rawLength)\n        except TypeError:", expect_rule="reject/"),
-    Mutant("crlf-check-dropped", HTTP, "        if not self._buffer.startswith(b\"\\r\\n\"):\n            raise _MalformedChunkedDataError(\"Chunk did not end with CRLF\")\n\n", "", expect_rule="reject/chunk-not-followed-by-crlf"),
-    Mutant("crlf-wait-threshold", HTTP, "        if len(self._buffer) < 2:\n            return False\n\n        if not self._buffer.startswith", "        if len(self._buffer) < 1:\n            return False\n\n        if not self._buffer.startswith",
-           expect_rule="split/crlf-wait"),
-    Mutant("crlf-raises-runtime-error", HTTP, "            raise _MalformedChunkedDataError(\"Chunk did not end with CRLF\")", "            raise RuntimeError(\"Chunk did not end with CRLF\")", expect_rule="reject/raises-malformed"),
-    Mutant("finish-callback-before-state", HTTP, "        self.state = \"FINISHED\"\n        self.finishCallback(data)\n        return False", "        self.finishCallback(data)\n        self.state = \"FINISHED\"\n        return False",
-           expect_rule="finish/state-before-callback"),
-    Mutant("buffer-cleared-before-extra-taken", HTTP, "        data = memoryview(self._buffer)[2:].tobytes()\n\n        del self._buffer[:]\n", "        del self._buffer[:]\n        data = memoryview(self._buffer)[2:].tobytes()\n",
-           expect_rule="finish/extra"),
-    Mutant("extra-bytes-off-by-one", HTTP, "        data = memoryview(self._buffer)[2:].tobytes()", "        data = memoryview(self._buffer)[1:].tobytes()", expect_rule="finish/extra-bytes"),
-    Mutant("size-line-limit-found-boundary", HTTP, "        if eolIndex >= maxChunkSizeLineLength or (", "        if eolIndex > maxChunkSizeLineLength or (", expect_rule="size-line/limit"),
-    Mutant("size-line-limit-unterminated-boundary", HTTP, "            eolIndex == -1 and len(self._buffer) > maxChunkSizeLineLength", "            eolIndex == -1 and len(self._buffer) >= maxChunkSizeLineLength",
-           expect_rule="size-line/limit-unterminated"),
-    Mutant("search-skips-buffered-cr", HTTP, "            self._start = len(self._buffer) - 1\n", "            self._start = len(self._buffer)\n", expect_rule="split/search-resumes-before-cr"),
-    Mutant("size-line-leaves-lf", HTTP, "        self.length = length\n        del self._buffer[0 : eolIndex + 2]", "        self.length = length\n        del self._buffer[0 : eolIndex + 1]", expect_rule="size-line/"),
-    Mutant("search-offset-not-reset", HTTP, "        del self._buffer[0 : eolIndex + 2]\n        self._start = 0\n        return True\n\n    def _dataReceived_CRLF", "        del self._buffer[0 : eolIndex + 2]\n        return True\n\n    def _dataReceived_CRLF",
-           expect_rule="size-line/"),
-    Mutant("zero-and-nonzero-states-swapped", HTTP, "        if length == 0:\n            self.state = \"TRAILER\"\n        else:\n            self.state = \"BODY\"", "        if length != 0:\n            self.state = \"TRAILER\"\n        else:\n            self.state = \"BODY\"",
-           expect_rule="size-line/accepted"),
-    Mutant("extension-table-allows-cr", HTTP, "    b\"\\t !\\\"#$%&'()*+,-./0123456789:;<=>?@\"", "    b\"\\t\\r !\\\"#$%&'()*+,-./0123456789:;<=>?@\"", expect_rule="reject/extension-bytes"),
-    Mutant("extension-check-dropped", HTTP, "        if ext and ext.translate(None, _chunkExtChars) != b\"\":", "        if False and ext.translate(None, _chunkExtChars) != b\"\":", expect_rule="reject/extension-bytes"),
-    Mutant("partial-chunk-not-counted", HTTP, "            chunk = bytes(self._buffer)\n            self.length -= len(chunk)\n", "            chunk = bytes(self._buffer)\n", expect_rule="body/chunk-bytes"),
-    Mutant("body-boundary-strict", HTTP, "        if len(self._buffer) >= self.length:\n            chunk = memoryview", "        if len(self._buffer) > self.length:\n            chunk = memoryview", expect_rule="body/chunk-bytes"),
-    Mutant("state-after-data-callback", HTTP, "            self.state = \"CRLF\"\n            self.dataCallback(chunk)", "            self.dataCallback(chunk)\n            self.state = \"CRLF\"", expect_rule="callout/state-updated-first"),
-    Mutant("trailer-size-not-counted", HTTP, "            self._receivedTrailerHeadersSize += eolIndex + 2\n", "", expect_rule="trailer/"),
-    Mutant("trailer-limit-unterminated-dropped", HTTP, "            if minTrailerSize > self._maxTrailerHeadersSize:\n                raise _MalformedChunkedDataError(\"Trailer headers data is too long.\")\n", "", expect_rule="trailer/limit"),
-    Mutant("semicolon-searched-beyond-line", HTTP, "endOfLengthIndex = self._buffer.find(b\";\", 0, eolIndex)", "endOfLengthIndex = self._buffer.find(b\";\")", expect_rule="size-line/accepted"),
-    Mutant("terminator-taken-as-trailer-field", HTTP, "        if eolIndex > 0:\n            # A trailer header was detected.", "        if eolIndex >= 0:\n            # A trailer header was detected.", expect_rule="finish/extra-bytes"),
-    Mutant("dispatch-on-empty-buffer", HTTP, "        while goOn and self._buffer:", "        while goOn:", expect_rule="states/no-dispatch-on-empty-buffer"),
-    Mutant("chunk-end-leaves-lf", HTTP, "        del self._buffer[0:2]\n        return True", "        del self._buffer[0:1]\n        return True", expect_rule="chunk-end/crlf-consumed"),
+    Mutant('hexdigits-regex-dollar-accepts-trailing-newline', ABNF, '    for c in b:\n        if c not in b"0123456789abcdefABCDEF":\n            return False\n    return b != b""\n', '    return _HEX_RE.match(b) is not None\n', more=[(ABNF, '"""\n\n\ndef _istoken', '"""\n\nimport re\n\n_HEX_RE = re.compile(rb"[0-9a-fA-F]+$")\n\n\ndef _istoken')]),
+    Mutant("hexdigits-accept-plus-space", ABNF, "        if c not in b\"0123456789abcdefABCDEF\":", "        if c not in b\"0123456789abcdefABCDEF +\":"),
+    Mutant("size-by-int-base16", HTTP, "            length = _hexint(rawLength)\n        except ValueError:", "            length = int(rawLength, 16)\n        except ValueError:"),
+    Mutant("size-error-not-converted", HTTP, "            length = _hexint(rawLength)\n        except ValueError:", "            length = _hexint(rawLength)\n        except TypeError:"),
+    Mutant("crlf-check-dropped", HTTP, "        if not self._buffer.startswith(b\"\\r\\n\"):\n            raise _MalformedChunkedDataError(\"Chunk did not end with CRLF\")\n\n", ""),
+    Mutant("crlf-wait-threshold", HTTP, "        if len(self._buffer) < 2:\n            return False\n\n        if not self._buffer.startswith", "        if len(self._buffer) < 1:\n            return False\n\n        if not self._buffer.startswith"),
+    Mutant("crlf-raises-runtime-error", HTTP, "            raise _MalformedChunkedDataError(\"Chunk did not end with CRLF\")", "            raise RuntimeError(\"Chunk did not end with CRLF\")"),
+    Mutant("finish-callback-before-state", HTTP, "        self.state = \"FINISHED\"\n        self.finishCallback(data)\n        return False", "        self.finishCallback(data)\n        self.state = \"FINISHED\"\n        return False"),
+    Mutant("buffer-cleared-before-extra-taken", HTTP, "        data = memoryview(self._buffer)[2:].tobytes()\n\n        del self._buffer[:]\n", "        del self._buffer[:]\n        data = memoryview(self._buffer)[2:].tobytes()\n"),
+    Mutant("extra-bytes-off-by-one", HTTP, "        data = memoryview(self._buffer)[2:].tobytes()", "        data = memoryview(self._buffer)[1:].tobytes()"),
+    Mutant("size-line-limit-found-boundary", HTTP, "        if eolIndex >= maxChunkSizeLineLength or (", "        if eolIndex > maxChunkSizeLineLength or ("),
+    Mutant("size-line-limit-unterminated-boundary", HTTP, "            eolIndex == -1 and len(self._buffer) > maxChunkSizeLineLength", "            eolIndex == -1 and len(self._buffer) >= maxChunkSizeLineLength"),
+    Mutant("search-skips-buffered-cr", HTTP, "            self._start = len(self._buffer) - 1\n", "            self._start = len(self._buffer)\n"),
+    Mutant("size-line-leaves-lf", HTTP, "        self.length = length\n        del self._buffer[0 : eolIndex + 2]", "        self.length = length\n        del self._buffer[0 : eolIndex + 1]"),
+    Mutant("search-offset-not-reset", HTTP, "        del self._buffer[0 : eolIndex + 2]\n        self._start = 0\n        return True\n\n    def _dataReceived_CRLF", "        del self._buffer[0 : eolIndex + 2]\n        return True\n\n    def _dataReceived_CRLF"),
+    Mutant("zero-and-nonzero-states-swapped", HTTP, "        if length == 0:\n            self.state = \"TRAILER\"\n        else:\n            self.state = \"BODY\"", "        if length != 0:\n            self.state = \"TRAILER\"\n        else:\n            self.state = \"BODY\""),
+    Mutant("extension-table-allows-cr", HTTP, "    b\"\\t !\\\"#$%&'()*+,-./0123456789:;<=>?@\"", "    b\"\\t\\r !\\\"#$%&'()*+,-./0123456789:;<=>?@\""),
+    Mutant("extension-check-dropped", HTTP, "        if ext and ext.translate(None, _chunkExtChars) != b\"\":", "        if False and ext.translate(None, _chunkExtChars) != b\"\":"),
+    Mutant("partial-chunk-not-counted", HTTP, "            chunk = bytes(self._buffer)\n            self.length -= len(chunk)\n", "            chunk = bytes(self._buffer)\n"),
+    Mutant("body-boundary-strict", HTTP, "        if len(self._buffer) >= self.length:\n            chunk = memoryview", "        if len(self._buffer) > self.length:\n            chunk = memoryview"),
+    Mutant("state-after-data-callback", HTTP, "            self.state = \"CRLF\"\n            self.dataCallback(chunk)", "            self.dataCallback(chunk)\n            self.state = \"CRLF\""),
+    Mutant("trailer-size-not-counted", HTTP, "            self._receivedTrailerHeadersSize += eolIndex + 2\n", ""),
+    Mutant("trailer-limit-unterminated-dropped", HTTP, "            if minTrailerSize > self._maxTrailerHeadersSize:\n                raise _MalformedChunkedDataError(\"Trailer headers data is too long.\")\n", ""),
+    Mutant("semicolon-searched-beyond-line", HTTP, "endOfLengthIndex = self._buffer.find(b\";\", 0, eolIndex)", "endOfLengthIndex = self._buffer.find(b\";\")"),
+    Mutant("terminator-taken-as-trailer-field", HTTP, "        if eolIndex > 0:\n            # A trailer header was detected.", "        if eolIndex >= 0:\n            # A trailer header was detected."),
+    Mutant("dispatch-on-empty-buffer", HTTP, "        while goOn and self._buffer:", "        while goOn:"),
+    Mutant("chunk-end-leaves-lf", HTTP, "        del self._buffer[0:2]\n        return True", "        del self._buffer[0:1]\n        return True"),
     Mutant("reject-message-decodes-size-strictly", HTTP, "            raise _MalformedChunkedDataError(\"Chunk-size must be an integer.\")",
-           "            raise _MalformedChunkedDataError(\"Chunk-size must be an integer: \" + rawLength.decode(\"ascii\"))", expect_rule="reject/"),
-    Mutant("extension-message-decodes-strictly", HTTP, "                f\"Invalid characters in chunk extensions: {ext!r}.\"", "                \"Invalid characters in chunk extensions: \" + ext.decode(\"utf-8\")",
-           expect_rule="reject/"),
-    Mutant("state-literal-typo", HTTP, "        if self.state != \"FINISHED\":", "        if self.state != \"FINISH\":", expect_rule="states/closed"),
-    Mutant("data-loss-not-reported", HTTP, "        if self.state != \"FINISHED\":\n            raise _DataLoss(", "        if self.state == \"CHUNK_LENGTH\":\n            raise _DataLoss(", expect_rule="dataloss/reported-unless-finished"),
-    Mutant("finished-accepts-data", HTTP, "        raise RuntimeError(\n            \"_ChunkedTransferDecoder.dataReceived called after last \"\n            \"chunk was processed\"\n        )", "        return False", expect_rule="finished/refuses-data"),
-    Mutant("fromChunk-crlf-unchecked", HTTP, "    if rest[length : length + 2] != b\"\\r\\n\":\n        raise ValueError(\"chunk must end with CRLF\")\n", "", expect_rule="reject/fromChunk"),
+           "            raise _MalformedChunkedDataError(\"Chunk-size must be an integer: \" + rawLength.decode(\"ascii\"))"),
+    Mutant("extension-message-decodes-strictly", HTTP, "                f\"Invalid characters in chunk extensions: {ext!r}.\"", "                \"Invalid characters in chunk extensions: \" + ext.decode(\"utf-8\")"),
+    Mutant("state-literal-typo", HTTP, "        if self.state != \"FINISHED\":", "        if self.state != \"FINISH\":"),
+    Mutant("data-loss-not-reported", HTTP, "        if self.state != \"FINISHED\":\n            raise _DataLoss(", "        if self.state == \"CHUNK_LENGTH\":\n            raise _DataLoss("),
+    Mutant("finished-accepts-data", HTTP, "        raise RuntimeError(\n            \"_ChunkedTransferDecoder.dataReceived called after last \"\n            \"chunk was processed\"\n        )", "        return False"),
+    Mutant("fromChunk-crlf-unchecked", HTTP, "    if rest[length : length + 2] != b\"\\r\\n\":\n        raise ValueError(\"chunk must end with CRLF\")\n", ""),
 ]
 SILENT = [
+    Silent("state-by-conditional-expression", HTTP, "        if length == 0:\n            self.state = \"TRAILER\"\n        else:\n            self.state = \"BODY\"\n", "        self.state = \"TRAILER\" if length == 0 else \"BODY\"\n"),
+    Silent("dispatch-loop-with-break", HTTP, "        goOn = True\n        while goOn and self._buffer:\n            goOn = getattr(self, \"_dataReceived_\" + self.state)()", "        while self._buffer:\n            step = getattr(self, \"_dataReceived_\" + self.state)\n            if not step():\n                break"),
+    Silent("limit-exception-built-by-helper", HTTP, "            raise _MalformedChunkedDataError(\n                \"Chunk size line exceeds maximum of {} bytes.\".format(\n                    maxChunkSizeLineLength\n                )\n            )\n", "            raise self._tooLong()\n",
+           more=[(HTTP, "    def _dataReceived_CRLF(self) -> bool:", "    def _tooLong(self):\n        return _MalformedChunkedDataError(\"Chunk size line exceeds maximum of {} bytes.\".format(maxChunkSizeLineLength))\n\n    def _dataReceived_CRLF(self) -> bool:")]),
+    Silent("trailer-limit-helper", HTTP, "            if self._receivedTrailerHeadersSize > self._maxTrailerHeadersSize:\n                raise _MalformedChunkedDataError(\"Trailer headers data is too long.\")\n            return True", "            self._limitTrailers(self._receivedTrailerHeadersSize)\n            return True",
+           more=[(HTTP, "    def _dataReceived_BODY(self) -> bool:", "    def _limitTrailers(self, size):\n        if size > self._maxTrailerHeadersSize:\n            raise _MalformedChunkedDataError(\"Trailer headers data is too long.\")\n\n    def _dataReceived_BODY(self) -> bool:")]),
     Silent('hexdigits-regex-fullmatch', ABNF, '    for c in b:\n        if c not in b"0123456789abcdefABCDEF":\n            return False\n    return b != b""\n', '    return _HEX_RE.fullmatch(b) is not None\n', more=[(ABNF, '"""\n\n\ndef _istoken', '"""\n\nimport re\n\n_HEX_RE = re.compile(rb"[0-9a-fA-F]+")\n\n\ndef _istoken')]),
     Silent('hexdigits-regex-Z-anchored', ABNF, '    for c in b:\n        if c not in b"0123456789abcdefABCDEF":\n            return False\n    return b != b""\n', '    return _HEX_RE.match(b) is not None\n', more=[(ABNF, '"""\n\n\ndef _istoken', '"""\n\nimport re\n\n_HEX_RE = re.compile(rb"[0-9a-fA-F]+\\Z")\n\n\ndef _istoken')]),
     Silent('hexdigits-translate-table', ABNF, '    for c in b:\n        if c not in b"0123456789abcdefABCDEF":\n            return False\n    return b != b""\n', '    return b != b"" and b.translate(None, b"0123456789abcdefABCDEF") == b""\n'),
